@@ -158,7 +158,7 @@ pub fn main_with(setup: Setup) {
     for d in rxc {
         let bad = !d.res.failures.is_empty() || d.res.disagreement.is_some();
         // shrinking is expensive: do it for the first few failing cases only
-        let do_shrink = bad && shrunk < 6;
+        let do_shrink = bad && shrunk < 6 && !args.extra.contains_key("noshrink");
         if do_shrink { shrunk += 1; }
         absorb(&mut report, &rtm, d, do_shrink);
     }
